@@ -439,9 +439,15 @@ def run(ctx):
     ]
     pr = ctx.prove("C18.v")
     ctx.assumptions = ["Print Assumptions: " + a for a in pr["assumptions"]] + [
-        "weights are non-negative; a weighted variance / covariance is compared only where the valid weights of the cell do not sum to 0",
-        "weighted quantile theorems wq_scale / wq_range assume strictly positive weights and 0<=p<=1",
-        "dimension arrays are 1-D with values inside the given interacting_shape (scaffold axes are C13)",
+        "C18_stddev_spec / C18_formats_stddev (weighted): the weights of the cell's valid rows do not sum to 0 (the generator keeps zero "
+        "weights but never a whole cell of them); C18_cov_spec (weighted): sum w <> 0 and sum w - sum w^2 / sum w <> 0 (cells where "
+        "this fails are 'skip' for the oracle: the textbook statistic is undefined there)",
+        "C18_quantile_lin / C18_quantile_spec / C18_wq_range: 0 <= p <= 1; C18_wq_range additionally strictly positive weights on the "
+        "valid rows (the code clips negative weights to 0; cells with a weight <= 0 are 'skip' for the oracle); C18_wq_scale: c > 0",
+        "C18_wq_* take the argsort result of the cell as a parameter and assume sort_perm_ok (a covering list of in-range indices that "
+        "sorts the segment, NaN last): checked by Coq on NumPy's own argsort result for every weighted-quantile case (perms_ok)",
+        "C18_group_spec: every category value lies inside its dimension's extent (`within`): dimension arrays are 1-D with values "
+        "inside the given interacting_shape (scaffold axes are C13; the dtype/wrap arithmetic of the coordinates is C03)",
     ]
     ctx.coverage["print_assumptions"] = pr["assumptions"]
 
